@@ -146,7 +146,10 @@ fn shape(r: &mut Rng) -> Shape {
 fn server_shape(r: &mut Rng) -> (&'static str, Box<dyn Fn(u64) -> String>) {
     let k = r.range(1, 9);
     let pump = |n: u64| format!("pump = #'int {{ | =0 => 0 | =n => {{ n srv, [n, 1] __integer_subtract__ ^ }} }}, {n} pump");
-    match r.below(8) {
+    match r.below(11) {
+        8 => ("server-nilary-captures", Box::new(move |n| format!("k = {k}, srv = @#{{ !#'int =m, [m, k] __integer_add__, ^ }}, {}", pump(n)))),
+        9 => ("server-nilary-two-sources", Box::new(move |n| format!("srv = @#{{ ! [#'int, #'bin] {{ | ='int => 1 | ='bin => 2 }}, ^ }}, 0x0{k} srv, {}", pump(n)))),
+        10 => ("server-nilary-spawns-child", Box::new(move |n| format!("srv = @#{{ !#'int =m, @#{{ {k} }}, ^ }}, {}", pump(n)))),
         0 => ("server-nilary", Box::new(move |n| format!("srv = @#{{ !#'int, ^ }}, {}", pump(n)))),
         1 => ("server-nilary-binds", Box::new(move |n| format!("srv = @#{{ !#'int =v, [v, {k}] __integer_add__, ^ }}, {}", pump(n)))),
         2 => ("server-nilary-block", Box::new(move |n| format!("srv = @#{{ !#'int {{ | =0 => Ok | ~ }}, ^ }}, {}", pump(n)))),
@@ -474,10 +477,13 @@ fn main() {
                 servers_checked += 1;
                 ev.case(&src_n, !a.is_empty());
                 ev.sample_sparse(i, 12, || json!({"kind": kind, "N": n, "source_at_N": src_n, "server_at_N": format!("{a:?}"), "server_at_50N": format!("{c:?}")}));
-                if a.len() != c.len() {
+                // the server is the first process spawned; a shape may spawn a child per message
+                let (a, c) = if a.len() != c.len() {
                     ev.hit("server:process-count-differs");
-                    continue;
-                }
+                    (a.into_iter().take(1).collect::<Vec<_>>(), c.into_iter().take(1).collect::<Vec<_>>())
+                } else {
+                    (a, c)
+                };
                 for ((pid, s1, l1, f1, st1), (_, s2, l2, f2, st2)) in a.iter().zip(c.iter()) {
                     ev.hit(&format!("server:status:{}", st1.split('/').next().unwrap_or("?")));
                     if st1 != st2 {
